@@ -5,7 +5,7 @@ from __future__ import annotations
 import os
 import shutil
 
-from py2coq import BOOL, ELT, INT, NUM, Translator, Unsupported, lst, obj, opt
+from py2coq import BOOL, ELT, INT, NUM, NUMX, Translator, Unsupported, lst, obj, opt
 
 # layout of the detector classes whose __init__ wires callbacks (not translated): the storage attributes
 # read/written by `_update` and `reset`, in a fixed order
@@ -39,6 +39,8 @@ SPEC = dict(
         "CUSUM": _cusum_layout("CUSUMConfig"),
         "PageHinkley": _cusum_layout("PageHinkleyConfig"),
         "GeometricMovingAverage": _cusum_layout("GeometricMovingAverageConfig"),
+        "DDM": [("_config", obj("DDMConfig")), ("_num_instances", INT), ("drift", BOOL), ("_additional_vars.error_rate", obj("Mean")),
+                ("_additional_vars.min_error_rate", NUMX), ("_additional_vars.min_std", NUMX), ("_additional_vars.warning", BOOL)],
     },
     elt={"AccuracyQueue": BOOL},
     ctor_elt={("CircularMean", "CircularQueue"): NUM},
@@ -59,6 +61,7 @@ UNITS = [
     ("DDMConfig", "__init__"), ("EDDMConfig", "__init__"), ("RDDMConfig", "__init__"), ("ECDDWTConfig", "__init__"),
     ("HDDMAConfig", "__init__"), ("HDDMWConfig", "__init__"), ("ADWINConfig", "__init__"), ("KSWINConfig", "__init__"),
     ("STEPDConfig", "__init__"),
+    ("DDM", "_update"), ("DDM", "reset"),
 ]
 
 # property -> equivalence files compiled against the freshly generated GSrc.v
@@ -66,7 +69,8 @@ EQ = {
     "C18": ["EqStats.v"],
     "C07": ["EqStats.v", "EqCusum.v"],
     "C19": ["EqStats.v", "EqConfig.v"],
-    "C02": ["EqStats.v", "EqCusum.v"],
+    "C02": ["EqStats.v", "EqCusum.v", "EqSPC.v"],
+    "C03": ["EqStats.v", "EqSPC.v"],
 }
 
 
